@@ -39,3 +39,13 @@ Example C08_nonvacuous :
   | Err _ => False end.
 Proof. exact nonvacuous. Qed.
 Print Assumptions C08_nonvacuous.
+
+(* the model's binding look-ups are the source's: find_by_name / find_named / find_root of the edit heap model equal
+   _find_binding / _find_named_binding / _find_attrpath_root REGENERATED from cli/manipulations.py on every run *)
+From Dyn Require Import FindGen FindProps.
+Theorem C08_lookup_is_source_lookup : forall s ids key nested,
+  _find_binding nat (fun _ => true) (name_of s) ids key = find_by_name s ids key /\
+  _find_named_binding nat (fun _ => true) (name_of s) (nested_of s) ids key nested = find_named s ids key nested /\
+  _find_attrpath_root nat (fun _ => true) (name_of s) (nested_of s) ids key = find_root s ids key.
+Proof. exact (fun s ids key nested => conj (find_binding_refines s ids key) (conj (find_named_refines s ids key nested) (find_root_refines s ids key))). Qed.
+Print Assumptions C08_lookup_is_source_lookup.
